@@ -120,11 +120,22 @@ func cmdExplore(args []string) int {
 	pd, entry := args[0], args[1]
 	params := map[string]int{}
 	workers := runtime.NumCPU()
+	preempt, deadlock, pbudget := 0, false, 0
 	for _, kv := range args[2:] {
 		if i := strings.IndexByte(kv, '='); i > 0 {
 			n, _ := strconv.Atoi(kv[i+1:])
-			if kv[:i] == "workers" {
+			switch kv[:i] {
+			case "workers":
 				workers = n
+				continue
+			case "preempt":
+				preempt = n
+				continue
+			case "pbudget":
+				pbudget = n
+				continue
+			case "deadlock":
+				deadlock = n == 1
 				continue
 			}
 			params[kv[:i]] = n
@@ -136,7 +147,7 @@ func cmdExplore(args []string) int {
 		return 2
 	}
 	fmt.Fprintf(os.Stderr, "loaded in %v\n", env.LoadTime)
-	run := HarnessRun{Entry: entry, PkgPath: pkgPathOf(pd), Params: params}
+	run := HarnessRun{Entry: entry, PkgPath: pkgPathOf(pd), Params: params, Preempt: preempt, Deadlock: deadlock, Budget2: pbudget}
 	res := explore(env, run, workers, "", 30*time.Minute)
 	printResult(res)
 	for i, v := range res.Violations {
